@@ -159,6 +159,7 @@ class ModuleInfo:
     functions: dict[str, list[FunctionInfo]] = field(default_factory=dict)  # top-level
     assigns: dict[str, ast.expr] = field(default_factory=dict)  # module level NAME = expr
     is_package: bool = False
+    extra_imports: dict[str, str] = field(default_factory=dict)  # names the normaliser introduced (kept across re-indexing)
 
 
 def dotted(node: ast.AST | None) -> str | None:
@@ -245,11 +246,17 @@ class Program:
             set_parents(mod.tree)
             mod.imports, mod.classes, mod.functions, mod.assigns = {}, {}, {}, {}
             self._index_module(mod)
+            for k, v in mod.extra_imports.items():
+                mod.imports.setdefault(k, v)
 
     def _normalise(self) -> None:
         """Role-based attribute names, then inlining of non-anchor private helpers (hwverif.normalize)."""
-        from .normalize import apply_renames, flatten_program, role_renames
+        from .normalize import apply_renames, flatten_program, role_renames, unfold_missing_predicates
 
+        unfolded = unfold_missing_predicates(self)
+        if unfolded:
+            self.normalisation_log += unfolded
+            self._reindex()
         ren = role_renames(self)
         if ren:
             self.normalisation_log += ["attribute " + x for x in apply_renames(self, ren)]
